@@ -155,6 +155,9 @@ Proof. unfold fuids. cbn [flat_map]. apply app_nil_r. Qed.
 Lemma fsize_single t : fsize [t] = tsize t.
 Proof. rewrite fsize_cons. cbn [fsize fold_right]. lia. Qed.
 
+Lemma Present_kids m t : Present m t -> Forall (Present m) (tkids t).
+Proof. intros H. inversion H; subst. cbn [tkids]. assumption. Qed.
+
 (* ---- the refinement ---- *)
 
 Lemma move_refines : refines_move.
@@ -266,13 +269,13 @@ Proof.
              | None => set_parent ir dest end).
   set (dst1 := mkDom (upd r ri (d_insts t)) (d_root t) used1c).
   assert (Hins1 : inner_insert t nu r (set_parent ir dest) = (dst1, nu1)).
-  { rewrite inner_insert_ustep. cbn [set_parent i_props]. rewrite Hirps, Huc'. reflexivity. }
+  { assert (Hgu : get_uid (i_props (set_parent ir dest)) = get_uid (tprops sub))
+      by (cbn [set_parent i_props]; now rewrite Hirps).
+    rewrite inner_insert_ustep, Hgu, Huc'. reflexivity. }
   (* step 4: the loop over r's descendants *)
   assert (HP : Forall (Present (d_insts src2)) kids).
-  { pose proof (Present_tflat p sub Hsubnd) as HPs.
-    inversion HPs as [r0 n0 c0 ps0 kids0 i0 Hl0 Hc0 Hp0 Hk0 Heq].
-    assert (Hkk : kids0 = kids) by (unfold kids; rewrite <- Heq; reflexivity).
-    rewrite Hkk in Hk0. rewrite Forall_forall in Hk0. apply Forall_forall. intros k Hkin.
+  { pose proof (Present_kids _ _ (Present_tflat p sub Hsubnd)) as Hk0. fold kids in Hk0.
+    rewrite Forall_forall in Hk0. apply Forall_forall. intros k Hkin.
     apply Present_ext with (m := tflat p sub); [|now apply Hk0].
     intros y Hy. apply Hin2. apply in_frefs. eauto. }
   assert (Hfuel : (fsize kids <= dom_size s)%nat).
